@@ -172,6 +172,8 @@ impl Mac {
         self.configuration.rx1_dr_offset = 0;
         self.configuration.rx2_data_rate = None;
         self.configuration.rx2_frequency = None;
+        // ... and so do the RX1 frequencies its DlChannelReq commands paired the channels with.
+        self.region.forget_downlink_frequencies();
         let (mut tx_config, tx_channel) =
             self.region.create_tx_config(rng, self.configuration.data_rate, &Frame::Join);
         tx_config.adjust_power(self.board_eirp.max_power, self.board_eirp.antenna_gain);
